@@ -1,0 +1,86 @@
+//! Verification hooks (compiled only with `--cfg humphrey_verif`): public wrappers around crate-private items
+//! so that an external harness can drive the frame codec and the SHA-1 / Base64 utilities.
+
+use crate::error::WebsocketError;
+use crate::frame::{Frame, Opcode};
+use crate::util::base64::{Base64Decode, Base64Encode};
+use crate::util::sha1::SHA1Hash;
+
+use std::convert::TryFrom;
+use std::io::Read;
+
+/// The fields of a frame, as plain data.
+#[derive(Debug, Clone, PartialEq, Eq)]
+pub struct FrameParts {
+    /// FIN bit.
+    pub fin: bool,
+    /// RSV1-3 bits.
+    pub rsv: [bool; 3],
+    /// Opcode (numeric).
+    pub opcode: u8,
+    /// MASK bit.
+    pub mask: bool,
+    /// Length field.
+    pub length: u64,
+    /// Masking key.
+    pub masking_key: [u8; 4],
+    /// Payload.
+    pub payload: Vec<u8>,
+}
+
+fn to_parts(f: Frame) -> FrameParts {
+    FrameParts {
+        fin: f.fin,
+        rsv: f.rsv,
+        opcode: f.opcode as u8,
+        mask: f.mask,
+        length: f.length,
+        masking_key: f.masking_key,
+        payload: f.payload,
+    }
+}
+
+/// Serialises a frame built from the given fields with `From<Frame> for Vec<u8>`.
+/// Returns `None` if the opcode is not one `Opcode::try_from` accepts.
+pub fn encode_frame(p: FrameParts) -> Option<Vec<u8>> {
+    let opcode = Opcode::try_from(p.opcode).ok()?;
+    Some(
+        Frame {
+            fin: p.fin,
+            rsv: p.rsv,
+            opcode,
+            mask: p.mask,
+            length: p.length,
+            masking_key: p.masking_key,
+            payload: p.payload,
+        }
+        .into(),
+    )
+}
+
+/// Decodes one frame from a reader with `Frame::from_stream`.
+pub fn decode_frame<T: Read>(stream: T) -> Result<FrameParts, WebsocketError> {
+    Frame::from_stream(stream).map(to_parts)
+}
+
+/// `Frame::new` followed by serialisation (what `Message::to_frame` and the control replies use).
+pub fn new_frame_bytes(opcode: u8, payload: Vec<u8>) -> Option<Vec<u8>> {
+    let opcode = Opcode::try_from(opcode).ok()?;
+    Some(Frame::new(opcode, payload).into())
+}
+
+/// SHA-1 of a byte string.
+pub fn sha1(data: &[u8]) -> [u8; 20] {
+    data.hash()
+}
+
+/// Base64 encoding of a byte string.
+pub fn base64_encode(data: &[u8]) -> String {
+    data.encode()
+}
+
+/// Base64 decoding of a string.
+#[allow(clippy::result_unit_err)]
+pub fn base64_decode(s: &str) -> Result<Vec<u8>, ()> {
+    s.decode()
+}
